@@ -54,6 +54,9 @@ type Fault struct {
 	Short int
 	// Sticky: every later call on this end fails the same way.
 	Sticky bool
+	// Delivered: for writes, the data does reach the peer, yet the call reports the error
+	// (e.g. a reset noticed right after the last segment was sent).
+	Delivered bool
 }
 
 // Conn is one end of an in-memory connection.
@@ -79,6 +82,8 @@ type Conn struct {
 	ClosedByUser bool
 	// OnClose is called once when Close is called on this end.
 	OnClose func()
+	// WriteHook, if set, may split a Write in two and run a callback between the halves.
+	WriteHook func(p []byte) (split int, mid func())
 }
 
 var pipeSeq atomic.Int64
@@ -181,10 +186,29 @@ func (c *Conn) Write(p []byte) (int, error) {
 	c.mu.Unlock()
 	if f != nil && (k == f.At || (f.Sticky && k > f.At)) {
 		n := 0
+		if f.Delivered && k == f.At {
+			n, _ = c.write(p)
+			return n, f.Err
+		}
 		if f.Short > 0 && f.Short < len(p) {
 			n, _ = c.write(p[:f.Short])
 		}
 		return n, f.Err
+	}
+	c.mu.Lock()
+	hook := c.WriteHook
+	c.mu.Unlock()
+	if hook != nil {
+		if split, mid := hook(p); mid != nil && split > 0 && split < len(p) {
+			// the write is "in progress": the first part is on the wire, something happens, then the rest follows
+			n1, err := c.write(p[:split])
+			if err != nil {
+				return n1, err
+			}
+			mid()
+			n2, err := c.write(p[split:])
+			return n1 + n2, err
+		}
 	}
 	return c.write(p)
 }
